@@ -13,6 +13,7 @@ Proof. unfold updN. intro H. destruct (N.eqb_spec x k); [contradiction|reflexivi
 Definition etag_pc (p : spc) (l : Z) (e : N) : Prop := p = QAge l e \/ p = QTake l e.
 
 Section S3.
+Variable cd : bool.
 Variable lease : Z.
 Variable rsleep : Z.
 
@@ -149,6 +150,20 @@ Proof.
     destruct (H c0 L W) as [o2 [Eo2 [Oo2 _]]]. congruence.
 Qed.
 
+Lemma hinv_delete_cd s c x' e ld ob r :
+  hinv s -> sinv s ->
+  my_etag (scl s c) = Some e -> etag_matches s e = true ->
+  is_locked x' = false ->
+  hinv (s_set s None (next_etag s) (snow s) c x' ld ob r).
+Proof.
+  intros H I M Em Hl c0. simpl. eqc c0 c.
+  - intros L. congruence.
+  - intros L W. exfalso.
+    unfold etag_matches in Em. destruct (obj s) as [o|] eqn:Eo; [|discriminate]. apply N.eqb_eq in Em.
+    pose proof (E_own s I c e o M Eo Em) as Ow.
+    destruct (H c0 L W) as [o2 [Eo2 [Oo2 _]]]. congruence.
+Qed.
+
 Lemma hinv_log s ob : hinv s -> hinv (s_log s ob).
 Proof. intros H c. simpl. apply H. Qed.
 
@@ -171,7 +186,7 @@ Ltac break_match :=
   | |- context [if ?b then _ else _] => destruct b eqn:?
   end.
 
-Lemma step_sinv s ev : sinv s -> sinv (sstep lease rsleep s ev).
+Lemma step_sinv s ev : sinv s -> sinv (sstep cd lease rsleep s ev).
 Proof.
   intro I. destruct ev as [c k|c f j|c f|d|c]; simpl.
   - (* SCall *)
@@ -213,7 +228,7 @@ Lemma hinv_tick s d ob : hinv s ->
                  late_delete := late_delete s; strace := strace s |} ob).
 Proof. intros H c. simpl. intros L W. apply H; auto. lia. Qed.
 
-Lemma late_sticky s ev : late_delete (sstep lease rsleep s ev) = false -> late_delete s = false.
+Lemma late_sticky s ev : late_delete (sstep cd lease rsleep s ev) = false -> late_delete s = false.
 Proof.
   destruct ev as [c k|c f j|c f|d|c]; simpl; repeat break_match; simpl; auto.
   all: intro H; apply orb_false_iff in H; tauto.
@@ -221,8 +236,8 @@ Qed.
 
 Ltac hkeep H := unfold s_cl; apply hinv_keep; [exact H | side ..].
 
-Lemma step_hinv s ev : sinv s -> hinv s -> late_delete (sstep lease rsleep s ev) = false ->
-  hinv (sstep lease rsleep s ev).
+Lemma step_hinv s ev : sinv s -> hinv s -> (cd = false -> late_delete (sstep cd lease rsleep s ev) = false) ->
+  hinv (sstep cd lease rsleep s ev).
 Proof.
   intros I H. destruct ev as [c k|c f j|c f|d|c]; simpl.
   - (* SCall *)
@@ -255,9 +270,15 @@ Proof.
     + (* QHeldSleep *) intros _. apply hinv_keep; [exact H|side ..].
     + (* QRelGet *) destruct f; repeat break_match; intros _; hkeep H.
     + (* QRelDel *)
-      break_match; [|intros _; hkeep H]. simpl. intro Hl. apply orb_false_iff in Hl. destruct Hl as [_ Hl].
-      apply negb_false_iff in Hl. apply Z.leb_le in Hl.
-      apply hinv_delete; auto. rewrite P. reflexivity.
+      destruct (lands f && (negb cd || match my_etag (scl s c) with Some e => etag_matches s e | None => false end)) eqn:Cnd;
+        [|intros _; hkeep H].
+      apply andb_true_iff in Cnd. destruct Cnd as [_ Cnd]. simpl. intro Hl.
+      destruct cd; simpl in Cnd.
+      * destruct (my_etag (scl s c)) as [e|] eqn:M; [|discriminate].
+        eapply hinv_delete_cd; eauto.
+      * specialize (Hl eq_refl). apply orb_false_iff in Hl. destruct Hl as [_ Hl].
+        apply negb_false_iff in Hl. apply Z.leb_le in Hl.
+        apply hinv_delete; auto. rewrite P. reflexivity.
   - (* SRenew *)
     destruct (s_alive (scl s c) && hb (scl s c) && is_locked (scl s c)) eqn:G; [|intros _; apply hinv_log; exact H].
     destruct (my_etag (scl s c)) as [e|] eqn:M; [|intros _; apply hinv_log; exact H].
@@ -272,20 +293,20 @@ Proof.
   - (* SDie *) intros _. hkeep H.
 Qed.
 
-Lemma run_inv evs : forall s, sinv s -> (late_delete s = false -> hinv s) ->
-  sinv (srun lease rsleep s evs)
-  /\ (late_delete (srun lease rsleep s evs) = false -> hinv (srun lease rsleep s evs)).
+Lemma run_inv evs : forall s, sinv s -> ((cd = false -> late_delete s = false) -> hinv s) ->
+  sinv (srun cd lease rsleep s evs)
+  /\ ((cd = false -> late_delete (srun cd lease rsleep s evs) = false) -> hinv (srun cd lease rsleep s evs)).
 Proof.
   induction evs as [|ev evs IH]; intros s I H; simpl; [auto|].
   apply IH.
   - apply step_sinv. exact I.
-  - intro L. apply step_hinv; auto. apply H. eapply late_sticky. exact L.
+  - intro L. apply step_hinv; auto. apply H. intro C. eapply late_sticky. apply L. exact C.
 Qed.
 
 (* ---- C19_s3_mutex_partial ---- *)
 Theorem s3_mutex_partial : forall evs,
-  let s := srun lease rsleep sinit evs in
-  late_delete s = false ->
+  let s := srun cd lease rsleep sinit evs in
+  (cd = false -> late_delete s = false) ->
   s3_mutex_at lease s
   /\ forall c, holder_live lease s c -> exists o, obj s = Some o /\ owner o = c.
 Proof.
@@ -299,9 +320,9 @@ Qed.
 
 (* ---- what one event can do to the lock object ---- *)
 Lemma step_obj s ev : sinv s ->
-  obj (sstep lease rsleep s ev) = obj s
-  \/ obj (sstep lease rsleep s ev) = None
-  \/ exists c, obj (sstep lease rsleep s ev) = Some (fresh_obj s c)
+  obj (sstep cd lease rsleep s ev) = obj s
+  \/ obj (sstep cd lease rsleep s ev) = None
+  \/ exists c, obj (sstep cd lease rsleep s ev) = Some (fresh_obj s c)
                /\ (obj s = None \/ exists o, obj s = Some o /\ (owner o = c \/ snow s - lm o > lease)).
 Proof.
   intro I. destruct ev as [c k|c f j|c f|d|c]; simpl.
@@ -331,8 +352,8 @@ Qed.
 
 (* ---- C19_s3_takeover_after_lease ---- *)
 Theorem s3_takeover_after_lease : forall evs ev o o',
-  let s := srun lease rsleep sinit evs in
-  let s' := sstep lease rsleep s ev in
+  let s := srun cd lease rsleep sinit evs in
+  let s' := sstep cd lease rsleep s ev in
   obj s = Some o -> obj s' = Some o' -> owner o' <> owner o ->
   snow s - lm o > lease /\ lm o' = snow s.
 Proof.
@@ -348,7 +369,7 @@ Qed.
 
 (* ---- C19_s3_is_held_sound ---- *)
 Theorem s3_is_held_sound : forall s ev c,
-  s_res (scl s c) <> STrue -> s_res (scl (sstep lease rsleep s ev) c) = STrue ->
+  s_res (scl s c) <> STrue -> s_res (scl (sstep cd lease rsleep s ev) c) = STrue ->
   exists f j second o, ev = SStep c f j /\ s_pc (scl s c) = QHeldGet second
                        /\ obj s = Some o /\ owner o = c.
 Proof.
@@ -404,10 +425,10 @@ Ltac break_in H :=
 Ltac fin F Hc := simpl in Hc; repeat match goal with E : obj ?s = _ |- _ => tryif constr_eq E Hc then fail else (rewrite E in Hc; clear E) end; first [discriminate Hc | exact (F _ Hc eq_refl) | (inversion Hc; congruence)].
 
 Lemma foreign_step s ev a : sinv s -> foreign s a -> is_acquire_of a ev = false ->
-  foreign (sstep lease rsleep s ev) a.
+  foreign (sstep cd lease rsleep s ev) a.
 Proof.
   intros I [F P] Hev.
-  assert (Hpc : in_acquire (s_pc (scl (sstep lease rsleep s ev) a)) = false).
+  assert (Hpc : in_acquire (s_pc (scl (sstep cd lease rsleep s ev) a)) = false).
   { destruct ev as [c k|c f j|c f|d|c]; simpl in *.
     - destruct (N.eq_dec c a) as [->|Hne];
         repeat break_match; simpl; rewrite ?updN_same, ?updN_other by auto; simpl; auto;
@@ -447,7 +468,7 @@ Proof.
 Qed.
 
 Lemma foreign_run evs : forall s a, sinv s -> foreign s a -> forallb (fun ev => negb (is_acquire_of a ev)) evs = true ->
-  sinv (srun lease rsleep s evs) /\ foreign (srun lease rsleep s evs) a.
+  sinv (srun cd lease rsleep s evs) /\ foreign (srun cd lease rsleep s evs) a.
 Proof.
   induction evs as [|ev evs IH]; intros s a I F H; simpl; [auto|].
   simpl in H. apply andb_true_iff in H. destruct H as [H1 H2]. apply negb_true_iff in H1.
@@ -455,16 +476,16 @@ Proof.
 Qed.
 
 Theorem s3_superseded : forall evs1 evs2 a,
-  let s1 := srun lease rsleep sinit evs1 in
+  let s1 := srun cd lease rsleep sinit evs1 in
   foreign s1 a ->
   forallb (fun ev => negb (is_acquire_of a ev)) evs2 = true ->
-  let s2 := srun lease rsleep s1 evs2 in
+  let s2 := srun cd lease rsleep s1 evs2 in
   foreign s2 a
-  /\ (forall f j, s_res (scl s2 a) <> STrue -> s_res (scl (sstep lease rsleep s2 (SStep a f j)) a) <> STrue)
-  /\ (forall f, obj (sstep lease rsleep s2 (SRenew a f)) = obj s2)
+  /\ (forall f j, s_res (scl s2 a) <> STrue -> s_res (scl (sstep cd lease rsleep s2 (SStep a f j)) a) <> STrue)
+  /\ (forall f, obj (sstep cd lease rsleep s2 (SRenew a f)) = obj s2)
   /\ (forall e, s_alive (scl s2 a) = true -> hb (scl s2 a) = true -> is_locked (scl s2 a) = true ->
                 my_etag (scl s2 a) = Some e ->
-                is_locked (scl (sstep lease rsleep s2 (SRenew a FNone)) a) = false).
+                is_locked (scl (sstep cd lease rsleep s2 (SRenew a FNone)) a) = false).
 Proof.
   intros evs1 evs2 a s1 F H s2.
   destruct (run_inv evs1 sinit sinv_init (fun _ => hinv_init)) as [I1 _]. fold s1 in I1.
@@ -501,7 +522,7 @@ Ltac tfin T1 T2 :=
   try (intros A B; first [discriminate A | (exfalso; apply B; reflexivity) | (apply T1; [reflexivity|discriminate])
                           | (left; reflexivity)]).
 
-Lemma stinv_step s ev c : stinv s c -> stinv (sstep lease rsleep s ev) c.
+Lemma stinv_step s ev c : stinv s c -> stinv (sstep cd lease rsleep s ev) c.
 Proof.
   intros [T1 T2].
   destruct ev as [c0 k|c0 f j|c0 f|d|c0]; simpl.
@@ -536,11 +557,11 @@ Proof.
   - destruct (N.eq_dec c0 c) as [->|Hne]; tfin T1 T2.
 Qed.
 
-Lemma stinv_run evs : forall s c, stinv s c -> stinv (srun lease rsleep s evs) c.
+Lemma stinv_run evs : forall s c, stinv s c -> stinv (srun cd lease rsleep s evs) c.
 Proof. induction evs as [|ev evs IH]; intros; simpl; auto. apply IH. apply stinv_step. assumption. Qed.
 
 Theorem s3_timeout : forall evs c,
-  let x := scl (srun lease rsleep sinit evs) c in
+  let x := scl (srun cd lease rsleep sinit evs) c in
   s_res x = STimeout ->
   s_start x + s_timeout x <= t_ret x
   /\ t_ret x <= Z.max (s_start x) (s_start x + s_timeout x) + s_maxgap x
@@ -553,10 +574,10 @@ Qed.
 
 (* acquire() returns True only when the object was absent or its lease had lapsed *)
 Theorem s3_ok_only_when_unowned : forall evs ev c,
-  let s := srun lease rsleep sinit evs in
-  s_res (scl s c) <> SOk -> s_res (scl (sstep lease rsleep s ev) c) = SOk ->
+  let s := srun cd lease rsleep sinit evs in
+  s_res (scl s c) <> SOk -> s_res (scl (sstep cd lease rsleep s ev) c) = SOk ->
   (obj s = None \/ exists o, obj s = Some o /\ snow s - lm o > lease)
-  /\ obj (sstep lease rsleep s ev) = Some (fresh_obj s c).
+  /\ obj (sstep cd lease rsleep s ev) = Some (fresh_obj s c).
 Proof.
   intros evs ev c s Hn Hr.
   destruct (run_inv evs sinit sinv_init (fun _ => hinv_init)) as [I _]. fold s in I. clearbody s.
@@ -596,6 +617,18 @@ Qed.
 
 End S3.
 
+(* ---- the two instances of s3_mutex_partial ---- *)
+Theorem s3_mutex_partial_unconditional : forall (lease rsleep : Z) (evs : list sevent),
+  let s := srun false lease rsleep sinit evs in
+  late_delete s = false ->
+  s3_mutex_at lease s
+  /\ (forall c, holder_live lease s c -> exists o, obj s = Some o /\ owner o = c).
+Proof. intros lease rsleep evs s L. apply s3_mutex_partial. intros _. exact L. Qed.
+
+(* with a conditional DELETE (If-Match: the releaser's own ETag) the FULL statement holds *)
+Theorem s3_mutex_conditional_delete : forall (lease rsleep : Z), s3_mutex_full true lease rsleep.
+Proof. intros lease rsleep evs. apply (s3_mutex_partial true lease rsleep evs). discriminate. Qed.
+
 (* ---- C19_s3_mutex_refuted: the faithful model of the unchanged code violates the full statement ---- *)
 Definition fc19_witness : list sevent :=
   [ SCall 0%N (CAcquire 2000); SStep 0%N FNone 300; SStep 0%N FNone 300;      (* A holds since t=0 *)
@@ -606,13 +639,30 @@ Definition fc19_witness : list sevent :=
     SStep 0%N FNone 300;                                                      (* A: unconditional DELETE *)
     SCall 2%N (CAcquire 2000); SStep 2%N FNone 300; SStep 2%N FNone 300 ].    (* C creates: B and C both live *)
 
-Theorem s3_mutex_refuted : ~ s3_mutex_full 60000 200.
+Theorem s3_mutex_refuted : ~ s3_mutex_full false 60000 200.
 Proof.
   intro M. specialize (M fc19_witness 1%N 2%N).
-  assert (H : forall c, (c = 1%N \/ c = 2%N) -> holder_live 60000 (srun 60000 200 sinit fc19_witness) c).
+  assert (H : forall c, (c = 1%N \/ c = 2%N) -> holder_live 60000 (srun false 60000 200 sinit fc19_witness) c).
   { intros c [->| ->]; vm_compute; repeat split; intro; discriminate. }
   specialize (M (H 1%N (or_introl eq_refl)) (H 2%N (or_intror eq_refl))). discriminate.
 Qed.
 
-Lemma fc19_witness_is_late : late_delete (srun 60000 200 sinit fc19_witness) = true.
+Lemma fc19_witness_is_late : late_delete (srun false 60000 200 sinit fc19_witness) = true.
 Proof. vm_compute. reflexivity. Qed.
+
+(* The weaker-looking hypothesis "no release is delayed by more than the lease BETWEEN ITS GET AND ITS
+   DELETE" does not suffice: here A (whose heartbeat did not get to renew) starts releasing 59 s into its
+   lease, and its DELETE lands 1002 ms after its GET -- after B's legitimate takeover at 60.001 s. *)
+Definition gap_witness : list sevent :=
+  [ SCall 0%N (CAcquire 2000); SStep 0%N FNone 300; SStep 0%N FNone 300;
+    STick 59000; SCall 0%N CRelease; SStep 0%N FNone 300;                     (* GET at 59.000 s *)
+    STick 1001;
+    SCall 1%N (CAcquire 2000); SStep 1%N FNone 300; SStep 1%N FNone 300; SStep 1%N FNone 300;
+    SStep 1%N FNone 300; SStep 1%N FNone 300;                                 (* takeover at 60.001 s *)
+    STick 1; SStep 0%N FNone 300;                                             (* DELETE at 60.002 s *)
+    SCall 2%N (CAcquire 2000); SStep 2%N FNone 300; SStep 2%N FNone 300 ].
+
+Lemma release_gap_hypothesis_insufficient :
+  let s := srun false 60000 200 sinit gap_witness in
+  holder_live 60000 s 1%N /\ holder_live 60000 s 2%N /\ snow s = 60002 /\ late_delete s = true.
+Proof. vm_compute. repeat split; intro; discriminate. Qed.
